@@ -14,11 +14,11 @@ LEVEL_TEXT = ("Partial proof (machine-checked composition). Proved in Lean over 
               "library that is linear in its parameters, together with the reproducibility of every row of final_<n>.dat.")
 TECHNIQUE = "Lean 4 composition of the C06 theorems + end-to-end pipeline runs against an independent closed-form description length"
 RULE = ("one case = one (data set, tree) pair: the top row's DL against the tree's closed-form DL, plus every final-table row's reproducibility; non-trivial = "
-        "the tree is linear in >=1 parameter and not within 5% of a snapping threshold; distinct by (planted truth, noise, seed, tree line)")
+        "the tree is linear in its parameters after a one-to-one reparametrisation of each (a0*x, x/a0, x + 1/a0, ...) and not within 5% of a snapping threshold; distinct by (planted truth, noise, seed, tree line)")
 EXPLANATION = LEVEL_TEXT
 TRUSTED = ["harness/oracle_mdl.py (closed-form weighted least squares, exact Hessian, snapping rule, tree code length)",
            "the pipeline is run with the library of the staged copy and a Gaussian likelihood on synthetic data"]
-ASSUMPTIONS = ["hFaithful (numerical): sampled, tolerance 5e-3 in description length", "only trees linear in their parameters have an independent closed form here"]
+ASSUMPTIONS = ["hFaithful (numerical): sampled, tolerance 5e-3 in description length", "only trees linear after a per-parameter reparametrisation have an independent closed form here; a weak parameter that cannot be zeroed is coded with ln 2 (ESR's convention, the larger of the candidate values, so the oracle never demands more than the code promises)"]
 MODELLED = []
 
 TOL = 5e-3
@@ -44,7 +44,7 @@ def _nll_at(lik, fcn, params):
     return lik.negloglike(list(params[:k]), fn), k
 
 
-def _one_dataset(ctx, lib, comp, truth, theta, noise, seed, P=1):
+def _one_dataset(ctx, lib, comp, truth, theta, noise, seed, P=1, exact_offset=False):
     import esr.fitting.likelihood as L
     rs = np.random.default_rng(seed)
     x = np.linspace(0.4, 3.2, 30)
@@ -52,11 +52,13 @@ def _one_dataset(ctx, lib, comp, truth, theta, noise, seed, P=1):
     model = oracle_mdl.linear_model(truth)
     k, cols, off = model
     y = off(x) + sum(t * c(x) for t, c in zip(theta, cols)) + rs.normal(0, noise, 30)
+    if truth == "a0 + x" and len(theta) == 1 and exact_offset:
+        y = y + (theta[0] - float(np.mean(y - x)))          # make the ESTIMATED offset exactly the planted one
     tag = "c04_%d_%d" % (comp, seed)
     dd = os.path.join(ctx.tmp, tag); os.makedirs(dd, exist_ok=True)
     fitlib.write_data(os.path.join(dd, "d.txt"), x, y, s)
     r = fitlib.run_pipeline(ctx, lib["copy"], lib["name"], comp, dd, "d.txt", tag, P=P, seed=seed, timeout=1800)
-    rp = dict(kind="dataset", basis=lib["name"], comp=comp, truth=truth, theta=list(theta), noise=noise, seed=seed, P=P)
+    rp = dict(kind="dataset", basis=lib["name"], comp=comp, truth=truth, theta=list(theta), noise=noise, seed=seed, P=P, exact_offset=exact_offset)
     if not r["ok"]:
         ctx.fail("pipeline-incomplete", "pipeline at n=%d on data planted from %s does not complete: %s %s" % (comp, truth, r["res"]["error"], fitlib.traceback_tail(r)), rp)
         return
@@ -84,14 +86,19 @@ def _one_dataset(ctx, lib, comp, truth, theta, noise, seed, P=1):
     trees = libgen.read_trees(libgen.libfile(lib["dir"], comp, "trees"))
     nlin = 0
     worst = None
+    cache = ctx.extra.setdefault("_models", {})
     for i, (f, labels) in enumerate(zip(funs, trees)):
-        m = oracle_mdl.linear_model(f)
+        if f not in cache:
+            cache[f] = oracle_mdl.separable_model(f)
+        m = cache[f]
         if m is None:
             continue
-        cf = oracle_mdl.closed_form(x, y, s, m)
-        if cf is None or cf["margin"] < 0.05:
+        cf = oracle_mdl.closed_form_separable(x, y, s, m)
+        if cf is None or cf["margin"] < 0.05 or not math.isfinite(cf["nll"]):
             continue
         nlin += 1
+        ctx.extra.setdefault("closed_form_kinds", {}).setdefault(cf["kind"], 0)
+        ctx.extra["closed_form_kinds"][cf["kind"]] += 1
         dl = cf["nll"] + cf["codelen"] + oracle_mdl.aifeyn(labels)
         ctx.case((truth, noise, seed, comp, i), nontrivial=True)
         if worst is None or dl < worst[0]:
@@ -112,14 +119,20 @@ def run(ctx):
     if not g["ok"]:
         ctx.disagree("library", "generation failed: %s" % g["res"]["error"]); return
     lib = dict(copy=g["copy"], dir=g["dir"], name="core_maths")
-    truths = [("a0*x", [1.7]), ("a0*x + a1", [-0.8, 2.5]), ("a0/x", [3.0]), ("a0 + x", [0.02]), ("a0*x + a1", [0.9, 0.01])]
+    truths = [("a0*x", [1.7]), ("a0*x + a1", [-0.8, 2.5]), ("a0/x", [3.0]), ("a0 + x", [0.02]), ("a0*x + a1", [0.9, 0.01]), ("a0 + x", [0.25])]
     plan = []
     for comp in ([3, 4] if not deep else [3, 4, 5]):
         for j in range(2 if not deep else 4):
             t, th = truths[(comp + j + ctx.seed) % len(truths)]
             plan.append((comp, t, th, ctx.rng.choice([0.05, 0.3]), ctx.seed * 100 + comp * 10 + j, 1 if j % 2 == 0 else 3))
-    for comp, t, th, noise, seed, P in plan:
-        _one_dataset(ctx, lib, comp, t, th, noise, seed, P=P)
+    # a planted offset just below one precision step (sqrt(12)*sigma/sqrt(N)): trees that carry it as 1/a0 cannot snap it to zero
+    for j, comp in enumerate([4] if not deep else [4, 5]):
+        noise = 0.3
+        plan.append((comp, "a0 + x", [ctx.rng.uniform(0.88, 0.97) * math.sqrt(12.0) * noise / math.sqrt(30.0)], noise, ctx.seed * 100 + 90 + j, 1, True))
+    for item in plan:
+        comp, t, th, noise, seed, P = item[:6]
+        _one_dataset(ctx, lib, comp, t, th, noise, seed, P=P, exact_offset=(len(item) > 6))
+    ctx.extra.pop("_models", None)
     ctx.extra["corr_obligations"] = 1
     ctx.extra["corr_discharged"] = int(not ctx.failures)
 
@@ -128,7 +141,7 @@ def replay(ctx, data):
     rp = data["replay"]
     c2 = common.Ctx("C04", "quick", 0); c2.tmp = ctx.tmp; c2.stage = ctx.stage
     g = libgen.generate(c2, rp["basis"], list(range(1, rp["comp"] + 1)), P=1, copy="c04r")
-    _one_dataset(c2, dict(copy=g["copy"], dir=g["dir"], name=rp["basis"]), rp["comp"], rp["truth"], rp["theta"], rp["noise"], rp["seed"], P=rp.get("P", 1))
+    _one_dataset(c2, dict(copy=g["copy"], dir=g["dir"], name=rp["basis"]), rp["comp"], rp["truth"], rp["theta"], rp["noise"], rp["seed"], P=rp.get("P", 1), exact_offset=rp.get("exact_offset", False))
     for f in c2.failures[:5]:
         print(f["what"])
     return not c2.failures
